@@ -149,6 +149,12 @@ func (p Prog) source(pkg string) (src, check, methods string) {
 	}
 	sort.Strings(ks)
 	for _, k := range ks {
+		if k == "Sub" && p.Interfaces {
+			// the dependency carries the interfaces tag itself and the package uses it as that interface: it is
+			// reached first as a field of A (which sorts before it) and later as a tagged type of its own
+			b.WriteString(strings.Replace(aux[k], "// +gengo:deepcopy\n", "// +gengo:deepcopy\n// +gengo:deepcopy:interfaces=Object\n", 1) + "\nvar _ Object = (*Sub)(nil)\n\n")
+			continue
+		}
 		b.WriteString(aux[k] + "\n")
 	}
 	// check file
@@ -236,6 +242,8 @@ func checkProgs(c *core.Ctx, progs []Prog) {
 		name := fmt.Sprintf("k%05d", i)
 		src, chk, methods := p.source(name)
 		t["p/"+name+"/types.go"] = src
+		// a file that sorts before types.go with FUNCTION-LOCAL types named like the package-level ones (other fields)
+		t["p/"+name+"/a_local.go"] = "package " + name + "\n\nfunc localTwins() int {\n\ttype A struct{ Local []int }\n\ttype Sub struct{ Other map[string]int }\n\ttype Dep struct{ P *int }\n\ttype Wrap struct{ Q []string }\n\ttype MyMap []int\n\treturn len(A{}.Local) + len(Sub{}.Other) + len(Wrap{}.Q) + len(MyMap{}) + func() int { _ = Dep{}; return 0 }()\n}\n"
 		switch p.UserMethods {
 		case 1:
 			t["p/"+name+"/methods.go"] = methods
